@@ -5,6 +5,12 @@ from units import contracts_bitvec as bv
 F = "src/util/bitvec_format.rs"
 R11 = Rewrite("for _ in 0..", "for n in 0..", rule="R11", why="unused loop variable named so the invariant can count iterations")
 
+WHY22 = "format! -> wrapper call with the same literal and arguments; assumed: the text is an (uninterpreted) function of literal and arguments"
+FMT_LEN = Rewrite(r'format!\(("[^"]*"), ([^;]*?)\)\.len\(\)', r"verif_fmt_len_usize(\1, \2)", regex=True, count=None, rule="R22", why=WHY22)
+FMT_USIZE2 = Rewrite(r'format!\(("[^"]*\$[^"]*"), ', r"verif_fmt_usize2(\1, ", regex=True, count=None, rule="R22", why=WHY22)
+FMT_U8 = Rewrite(r'format!\(("[^"]*"), byte\)', r"verif_fmt_u8(\1, byte)", regex=True, count=None, rule="R22", why=WHY22)
+FMT_USIZE = Rewrite(r'format!\(("[^"]*"), byte_num\)', r"verif_fmt_usize(\1, byte_num)", regex=True, count=None, rule="R22", why=WHY22)
+
 format_binary = Fn(F, "format_binary", impl="util::BitVec", impl_header="BitVec", slot="util", ret="res", key="BitVec::format_binary", props=["C11", "C03", "C19"],
     requires=[C("wf", "self.wf()"), C("len_fits", "self.len + 8 <= usize::MAX", ["C19"])],
     ensures=[
@@ -54,9 +60,12 @@ format_hexstr = Fn(F, "format_hexstr", impl="util::BitVec", impl_header="BitVec"
     requires=[C("wf", "self.wf()"), C("len_fits", "self.len + 8 <= usize::MAX", ["C19"])],
     ensures=[C("four_bits_per_digit", "res@.len() == ceil_div(self.len as int, 4) && forall|k: int| 0 <= k < res@.len() ==> #[trigger] res@[k] == digit_char(acc(self.v(), 4 * k, 4))", ["C11"])])
 
-SAFE_REQ = [C("wf", "self.wf()"), C("len_fits", "self.len + 8 <= usize::MAX", ["C19"])]
+SAFE_REQ = [C("wf", "self.wf()"), C("len_fits", "self.len + 32 <= usize::MAX", ["C19"])]
 BYTE_LOOP = Loop(invariant=[C("bits", "n <= 8 && index as int == start + n && self.len + 8 <= usize::MAX && start < self.len && byte as int == acc(self.v(), start as int, n as int)")],
                  body_start="                proof { lemma_acc_bound(self.v(), start as int, n as int); vstd::arithmetic::power2::lemma2_to64(); if n < 8 { vstd::arithmetic::power2::lemma_pow2_strictly_increases(n as nat, 8); } if n < 7 { vstd::arithmetic::power2::lemma_pow2_strictly_increases(n as nat, 7); } let ghost b0: u8 = if bit_of(self.v(), index as nat) { 1 } else { 0 }; lemma_shift_or(byte, b0); }")
+BYTE_INS = Insert("\t\t\tlet mut byte: u8 = 0;", "\t\t\tlet ghost start = index;\n", where="before")
+WHILE = "while index < self.len()"
+RDX = "(radix == 10 || radix == 16)"
 def safe_fmt(name, extra_req=()):
     return Fn(F, name, impl="util::BitVec", impl_header="BitVec", slot="util", ret="res", key="BitVec::" + name, props=["C11", "C03", "C19"],
         requires=SAFE_REQ + list(extra_req),
@@ -66,9 +75,54 @@ def safe_fmt(name, extra_req=()):
                "for n in 0..8": BYTE_LOOP},
         inserts=[Insert("\t\t\tlet mut byte: u8 = 0;", "\t\t\tlet ghost start = index;\n", where="before")])
 
-format_mif = safe_fmt("format_mif")
-format_c_array = safe_fmt("format_c_array", [C("radix_supported", "radix == 10 || radix == 16", ["C03"])])
-format_separator = safe_fmt("format_separator", [C("radix_supported", "radix == 10 || radix == 16", ["C03"])])
+format_mif = Fn(F, "format_mif", impl="util::BitVec", impl_header="BitVec", slot="util", ret="res", key="BitVec::format_mif", props=["C11", "C03", "C19"],
+    requires=SAFE_REQ,
+    ensures=[C("rows_are_the_bytes_in_order", "res@ == mif_text(self.v(), self.len as int)", ["C11"])],
+    rewrites=[R11, FMT_LEN, FMT_USIZE2, FMT_U8, FMT_USIZE],
+    loops={WHILE: Loop(invariant=[
+               C("state", "self.wf() && self.len + 8 <= usize::MAX && index < self.len + 8 && index % 8 == 0 && byte_num == byte_count(self.len as int) && addr_max_width == fmt_len(\"{:x}\"@, saturating_pred(byte_num as int))"),
+               C("rows_so_far", "result@ =~= mif_header(byte_num as int) + mif_rows(self.v(), addr_max_width as int, index as int / 8)"),
+           ], decreases="self.len + 8 - index"),
+           "for n in 0..8": BYTE_LOOP},
+    inserts=[BYTE_INS])
+format_c_array = Fn(F, "format_c_array", impl="util::BitVec", impl_header="BitVec", slot="util", ret="res", key="BitVec::format_c_array", props=["C11", "C03", "C19"],
+    requires=SAFE_REQ + [C("radix_supported", "radix == 10 || radix == 16", ["C03"])],
+    ensures=[C("elements_are_the_bytes_in_order", "res@ == c_array_text(self.v(), self.len as int, radix as int)", ["C11"])],
+    rewrites=[R11, FMT_LEN, FMT_USIZE2, FMT_U8],
+    loops={WHILE: Loop(invariant=[
+               C("state", "self.wf() && self.len + 8 <= usize::MAX && index < self.len + 8 && index % 8 == 0 && " + RDX + " && byte_num == byte_count(self.len as int) && addr_max_width == fmt_len(\"{:x}\"@, saturating_pred(byte_num as int))"),
+               C("elements_so_far", "result@ =~= \"const unsigned char data[] = {\\n\"@ + fmt_text(\"\\t/* 0x{:01$x} */ \"@, 0, addr_max_width as int) + c_array_rows(self.v(), self.len as int, radix as int, addr_max_width as int, index as int / 8)"),
+           ], decreases="self.len + 8 - index",
+           body_start="\t\t\tproof { reveal_strlit(\"{}\"); reveal_strlit(\"0x{:02x}\"); }"),
+           "for n in 0..8": BYTE_LOOP},
+    inserts=[BYTE_INS])
+FL = "src/util/bitvec_format.rs"
+format_logisim = Fn(F, "format_logisim", impl="util::BitVec", impl_header="BitVec", slot="util", ret="res", key="BitVec::format_logisim", props=["C11", "C03", "C19"],
+    requires=SAFE_REQ + [C("chunk_width", "1 <= bits_per_chunk <= 16", ["C03"])],
+    ensures=[C("chunks_are_the_bits_in_order", "res@ == logisim_text(self.v(), self.len as int, bits_per_chunk as int)", ["C11"])],
+    rewrites=[R11, Rewrite('format!("{:01$x} ", value, bits_per_chunk / 4)', 'verif_fmt_u16_usize("{:01$x} ", value, bits_per_chunk / 4)', rule="R22", why=WHY22)],
+    loops={WHILE: Loop(invariant=[
+               C("state", "self.wf() && self.len + 32 <= usize::MAX && 1 <= bits_per_chunk <= 16 && index < self.len + bits_per_chunk && chunks >= 0 && index as int == bits_per_chunk * chunks"),
+               C("chunks_so_far", "result@ =~= \"v2.0 raw\\n\"@ + logisim_rows(self.v(), bits_per_chunk as int, chunks)"),
+           ], decreases="self.len + 32 - index",
+           before="\t\tlet ghost mut chunks: int = 0; proof { assert(bits_per_chunk * 0 == 0) by (nonlinear_arith); }",
+           body_end="\t\t\tproof { assert(bits_per_chunk * (chunks + 1) == bits_per_chunk * chunks + bits_per_chunk) by (nonlinear_arith); chunks = chunks + 1; }"),
+           "for n in 0..bits_per_chunk": Loop(invariant=[C("bits", "n <= bits_per_chunk && 1 <= bits_per_chunk <= 16 && index as int == start + n && self.len + 32 <= usize::MAX && start < self.len && value as int == acc(self.v(), start as int, n as int)")],
+               body_start="                proof { lemma_acc_bound(self.v(), start as int, n as int); vstd::arithmetic::power2::lemma2_to64(); if n < 15 { vstd::arithmetic::power2::lemma_pow2_strictly_increases(n as nat, 15); } let ghost b0: u16 = if bit_of(self.v(), index as nat) { 1 } else { 0 }; lemma_shift_or16(value, b0); }")},
+    inserts=[Insert("\t\t\tlet mut value: u16 = 0;", "\t\t\tlet ghost start = index;\n", where="before"),
+             Insert("\t\t\tif (index / 8) % 16 == 0", "\t\t\tproof { assert(bits_per_chunk * (chunks + 1) == bits_per_chunk * chunks + bits_per_chunk) by (nonlinear_arith); }\n", where="before"),
+             Insert("\t\tresult\n", "\t\tproof { let a = self.len + bits_per_chunk - 1; lemma_div_unique(a as int, bits_per_chunk as int, chunks, a - bits_per_chunk * chunks); }\n", where="before")])
+format_separator = Fn(F, "format_separator", impl="util::BitVec", impl_header="BitVec", slot="util", ret="res", key="BitVec::format_separator", props=["C11", "C03", "C19"],
+    requires=SAFE_REQ + [C("radix_supported", "radix == 10 || radix == 16", ["C03"])],
+    ensures=[C("values_are_the_bytes_in_order", "res@ == sep_rows(self.v(), self.len as int, radix as int, separator@, byte_count(self.len as int))", ["C11"])],
+    rewrites=[R11, FMT_U8],
+    loops={WHILE: Loop(invariant=[
+               C("state", "self.wf() && self.len + 8 <= usize::MAX && index < self.len + 8 && index % 8 == 0 && " + RDX),
+               C("values_so_far", "result@ =~= sep_rows(self.v(), self.len as int, radix as int, separator@, index as int / 8)"),
+           ], decreases="self.len + 8 - index",
+           body_start="\t\t\tproof { reveal_strlit(\"{}\"); reveal_strlit(\"0x{:02x}\"); }"),
+           "for n in 0..8": BYTE_LOOP},
+    inserts=[BYTE_INS])
 
 DCONST = "self.wf() && 1 <= digit_bits <= 4 && 1 <= byte_bits <= 64 && 1 <= bytes_per_line <= 1024 && self.len + 0x40000 <= usize::MAX"
 DARGS = "self.v(), self.len as int, digit_bits as int, byte_bits as int, bytes_per_line as int"
@@ -77,8 +131,7 @@ format_dump = Fn(F, "format_dump", impl="util::BitVec", impl_header="BitVec", sl
               C("line_width", "1 <= bytes_per_line <= 1024", ["C03"]), C("len_fits", "self.len + 0x40000 <= usize::MAX", ["C19"])],
     ensures=[C("text_is_the_dump_of_the_bits", "res@ == dump_text(%s)" % DARGS, ["C11"])],
     rewrites=[
-        Rewrite('format!("{:x}", (line_end - 1) * bytes_per_line).len()', "verif_hex_text_len((line_end - 1) * bytes_per_line)", rule="R22", why="format! -> wrapper whose text is an uninterpreted function of the arguments"),
-        Rewrite('format!(" {:01$x} | ", line_index * bytes_per_line, addr_max_width)', "verif_dump_addr(line_index * bytes_per_line, addr_max_width)", rule="R22", why="format! -> wrapper whose text is an uninterpreted function of the arguments"),
+        FMT_LEN, FMT_USIZE2,
     ],
     for_to_while=[3, 5],
     loops={
@@ -120,7 +173,7 @@ format_hexdump = Fn(F, "format_hexdump", impl="util::BitVec", impl_header="BitVe
 UNIT = Unit(
     "U-format", "u_format/skeleton.rs",
     items=cb.items("stub", "util", only=["set_bit", "get_bit"]) + bv.items("stub", "util", only=["read_bit", "len"]) + [
-        format_binary, format_str, format_binstr, format_hexstr, format_mif, format_c_array, format_separator, format_dump, format_bindump, format_hexdump,
+        format_binary, format_str, format_binstr, format_hexstr, format_mif, format_c_array, format_separator, format_logisim, format_dump, format_bindump, format_hexdump,
     ],
     serves=["C11", "C03", "C19"],
     description="util::BitVec formatters with a functional contract: raw binary, bit string, hex string, bit and hex dumps",
